@@ -997,3 +997,102 @@ N('C17', 'explanation chain stored through a local', CONGC,
   "        res[(s, t)] = cur_path\n        return res", "        chain = cur_path\n        res[(s, t)] = chain\n        return res")
 N('C06', 'names to avoid collected with a loop', 'prover/z3wrapper.py',
   "    var_names = [v.name for v in term.get_vars(As + [C])]", "    var_names = []\n    for v in term.get_vars(As + [C]):\n        var_names.append(v.name)")
+
+# ------------------------------------------------------------------------------------------- rules of round 6
+B('C01', 'Thm.is_equals looks at the conclusion behind the implications', THM,
+  '"""Check whether the proposition of the theorem is of the form x = y."""\n        return self.prop.is_equals()',
+  '"""Check whether the proposition of the theorem is of the form x = y."""\n        return self.concl.is_equals()', 'C01.K17', 'head-test-of')
+B('C02', 'theorem step justified from the current global theory', THEORY,
+  "                res_th = self.get_theorem(seq.args)", "                res_th = get_theorem(seq.args)", 'C02.P12', '')
+B('C03', 'rigid type variable matches anything but another variable (behind Term.subst)', 'kernel/type.py',
+  "        elif self.is_tvar():\n            if self != T:\n                raise TypeMatchException('Unable to match %s with %s' % (self, T))",
+  "        elif self.is_tvar():\n            if T.is_tvar() and T.name != self.name:\n                raise TypeMatchException('Unable to match %s with %s' % (self, T))", 'C03.I9', 'tvar')
+B('C04', 'apply_theorem evaluation generalises over the schematic variables left in the result', 'logic/logic.py',
+  "        remain_svars = [t.subst_type(inst.tyinst) for t in svars if t.name not in inst]\n        for v in reversed(remain_svars):\n            th = Thm.forall_intr(v, th)",
+  "        remain_svars = th.prop.get_svars()\n        for v in reversed(remain_svars):\n            th = Thm.forall_intr(v, th)", 'C04.M16', 'closing(forall_intr)')
+B('C05', 'exact result zero read as no result', 'integral/inequality.py',
+  "    try:\n        res = real.real_eval(t)\n    except ConvException:\n        res = real.real_approx_eval(t)\n\n    return res",
+  "    try:\n        res = real.real_eval(t)\n    except ConvException:\n        res = None\n\n    return res or real.real_approx_eval(t)", 'C05.T9', 'eval_hol_expr')
+B('C06', 'solution set compared with the interval by its end points', 'prover/sympywrapper.py',
+  '    # print("Result: ", res)\n    return res == interval', '    # print("Result: ", res)\n    return res.start == interval.start and res.end == interval.end', 'C06.S4', 'answer(')
+B('C09', 'a given instantiation without term bindings is replaced by an empty one', 'logic/matcher.py',
+  "    if inst is None:\n        inst = Inst()\n    else:\n        inst = copy(inst)  # do not modify input",
+  "    if inst is None or len(inst) == 0:\n        inst = Inst()\n    else:\n        inst = copy(inst)  # do not modify input", 'C09.N10', 'first_order_match')
+B('C10', 'top_sweep_conv stops wherever the conversion raises no exception', 'logic/conv.py',
+  "            pt = refl(t).on_rhs(try_conv(self.cv))\n            if not pt.is_reflexive():\n                return pt\n\n            if t.is_comb():\n                fun_pt = rec(t.fun)",
+  "            try:\n                return self.cv.get_proof_term(t)\n            except ConvException:\n                pt = refl(t)\n\n            if t.is_comb():\n                fun_pt = rec(t.fun)", 'C10.V10', 'top_sweep_conv')
+B('C11', 'constants of a term remembered by name', TERM,
+  "            if t.is_const():\n                if t not in found:\n                    res.append(t)\n                    found.add(t)",
+  "            if t.is_const():\n                if t.name not in found:\n                    res.append(t)\n                    found.add(t.name)", 'C11.D9', 'get_consts')
+B('C13', 'rewrite_goal_with_prev tactic normalises with another conversion than its macro', 'logic/tactic.py',
+  "        cv = then_conv(top_sweep_conv(rewr_conv(pt)),\n                       beta_norm_conv())\n        eq_th = cv.eval(C)",
+  "        cv = then_conv(top_sweep_conv(rewr_conv(pt)),\n                       top_conv(beta_conv()))\n        eq_th = cv.eval(C)", 'C13.A12', 'rewrite_goal_with_prev')
+B('C14', 'parameters of apply_forward_step parsed over the variables of the first fact', 'server/method.py',
+  "    def apply(self, state: ProofState, id, data, prevs):\n        inst = Inst()\n        with context.fresh_context(vars=state.get_vars(id)):\n            for key, val in data.items():\n                if key.startswith(\"param_\"):\n                    if val != '':",
+  "    def apply(self, state: ProofState, id, data, prevs):\n        inst = Inst()\n        with context.fresh_context(vars=state.get_vars(prevs[0])):\n            for key, val in data.items():\n                if key.startswith(\"param_\"):\n                    if val != '':", 'C14.S8', 'parse-context')
+B('C15', 'backtracking removes the assignments of the current level only', SATF,
+  "            if assigns[name][2] > backtrack_level:\n                del assigns[name]", "            if assigns[name][2] == level:\n                del assigns[name]", 'C15.X11', '')
+B('C16', 'first entry of the hash bucket taken for the factoid looked up', 'prover/omega.py',
+  "        for df in alist:\n            if df.factoid.key == fk.key:\n                return df\n        raise KeyError", "        for df in alist:\n            return df\n        raise KeyError", 'C16.O8', 'lookup_fkey')
+B('C18', 'refl step judged under the context of the last anchor when its own is empty', 'smt/veriT/proof_rec.py',
+  '        if rule_name == "refl":\n            args += (step.cur_ctx,)', '        if rule_name == "refl":\n            args += (step.cur_ctx or self.ctx,)', 'C18.R23', '')
+B('C19', 'even negative exponents take the square case', 'integral/interval.py',
+  "            elif eval_expr(other.start) == 2:\n                # Simple case", "            elif eval_expr(other.start) % 2 == 0:\n                # Simple case", 'C19.E8', '')
+B('C20', 'else branch of a conditional condition read at the negation level', 'imperative/parser2.py',
+  '        | "if" cond "then" cond "else" cond -> if_cond', '        | "if" cond "then" cond "else" neg -> if_cond', 'C20.P8', '')
+B('C07', 'fresh_context restores the context only on normal exit', 'logic/context.py',
+  "    ctxt = Context(svars=svars, vars=vars, defs=defs)\n    try:\n        yield None\n    finally:\n        # Recover previous context\n        ctxt = prev_ctxt",
+  "    ctxt = Context(svars=svars, vars=vars, defs=defs)\n    yield None\n    # Recover previous context\n    ctxt = prev_ctxt", 'C07.W7', 'fresh_context')
+B('C08', 'fresh_context restores the context only on normal exit', 'logic/context.py',
+  "    ctxt = Context(svars=svars, vars=vars, defs=defs)\n    try:\n        yield None\n    finally:\n        # Recover previous context\n        ctxt = prev_ctxt",
+  "    ctxt = Context(svars=svars, vars=vars, defs=defs)\n    yield None\n    # Recover previous context\n    ctxt = prev_ctxt", 'C08.U9', 'fresh_context')
+B('C12', 'fresh_context restores the context only on normal exit', 'logic/context.py',
+  "    ctxt = Context(svars=svars, vars=vars, defs=defs)\n    try:\n        yield None\n    finally:\n        # Recover previous context\n        ctxt = prev_ctxt",
+  "    ctxt = Context(svars=svars, vars=vars, defs=defs)\n    yield None\n    # Recover previous context\n    ctxt = prev_ctxt", 'C12.L11', 'fresh_context')
+
+# ------------------------------------------------------------------------------------------- rules of round 7
+B('C03', 'one schematic variable per name is type-matched', TERM,
+  "        svars = self.get_svars()\n        for v in svars:\n            if v.name in inst:\n                try:\n                    inst_T = inst[v.name].get_type()\n                    v.T.match_incr(inst_T, inst.tyinst)",
+  "        svars = {v.name: v for v in self.get_svars()}\n        for nm in inst.keys():\n            if nm in svars:\n                v = svars[nm]\n                try:\n                    inst_T = inst[nm].get_type()\n                    svars[nm].T.match_incr(inst_T, inst.tyinst)", 'C03.I10', 'Term.subst')
+N('C03', 'schematic variables to match collected by a filter first', TERM,
+  "        svars = self.get_svars()\n        for v in svars:\n            if v.name in inst:\n                try:",
+  "        svars = [sv for sv in self.get_svars() if sv.name in inst]\n        for v in svars:\n            if True:\n                try:")
+B('C09', 'argument matched before the head variable is bound', 'logic/matcher.py',
+  "                        inst[pat.head.name] = t.fun\n                        match(pat.arg, t.arg)", "                        match(pat.arg, t.arg)\n                        inst[pat.head.name] = t.fun", 'C09.N11', 'test-then-store')
+B('C04', 'refl evaluation tries the orientations in the other order', VM,
+  "        if goal.lhs.is_var() and goal.lhs.name in ctxt and ctxt[goal.lhs.name] == goal.rhs:\n            return Thm(goal, goal)\n        if goal.rhs.is_var() and goal.rhs.name in ctxt and ctxt[goal.rhs.name] == goal.lhs:\n            return Thm(goal, Eq(goal.rhs, goal.lhs))\n        else:",
+  "        if goal.rhs.is_var() and goal.rhs.name in ctxt and ctxt[goal.rhs.name] == goal.lhs:\n            return Thm(goal, Eq(goal.rhs, goal.lhs))\n        if goal.lhs.is_var() and goal.lhs.name in ctxt and ctxt[goal.lhs.name] == goal.rhs:\n            return Thm(goal, goal)\n        else:", 'C04.M17', 'ReflMacro')
+N('C04', 'refl evaluation names the hypothesis before returning', VM,
+  "        if goal.lhs.is_var() and goal.lhs.name in ctxt and ctxt[goal.lhs.name] == goal.rhs:\n            return Thm(goal, goal)\n        if goal.rhs.is_var()",
+  "        if goal.lhs.is_var() and goal.lhs.name in ctxt and ctxt[goal.lhs.name] == goal.rhs:\n            return Thm(goal, Eq(goal.lhs, goal.rhs))\n        if goal.rhs.is_var()")
+B('C06', 'schematic variables translated like ordinary ones', 'prover/z3wrapper.py',
+  "    def rec(t):\n        if t.is_var():\n            z3_t = convert_const(t.name, t.T, ctx)", "    def rec(t):\n        if t.is_var() or t.is_svar():\n            z3_t = convert_const(t.name, t.T, ctx)", 'C06.Z9', 'kinds-translated-by-name')
+B('C08', 'occurs check for the representative only', 'syntax/infertype.py',
+  "        for k, v in uf.items():\n            if uf[k] == T1:\n                if k in new_reach:\n                    raise TypeInferenceException(\"Infinite loop\")\n                uf[k] = T2",
+  "        if int(T1.name[2:]) in new_reach:\n            raise TypeInferenceException(\"Infinite loop\")\n        for k, v in uf.items():\n            if uf[k] == T1:\n                uf[k] = T2", 'C08.U10', 'occurs-check-per-member')
+N('C08', 'occurs check in a loop of its own over the members', 'syntax/infertype.py',
+  "        for k, v in uf.items():\n            if uf[k] == T1:\n                if k in new_reach:\n                    raise TypeInferenceException(\"Infinite loop\")\n                uf[k] = T2",
+  "        for k in [m for m in uf if uf[m] == T1]:\n            if k in new_reach:\n                raise TypeInferenceException(\"Infinite loop\")\n        for k, v in uf.items():\n            if uf[k] == T1:\n                uf[k] = T2")
+B('C11', 'induction hypotheses chosen by the head of the type', 'server/items.py',
+  "            As = [var_P(Var(nm, T2)) for nm, T2 in zip(constr['args'], argT) if T2 == T]", "            As = [var_P(Var(nm, T2)) for nm, T2 in zip(constr['args'], argT) if T2.is_tconst() and T2.name == self.name]", 'C11.D10', 'Datatype.get_extension')
+N('C11', 'induction hypotheses built from the argument variables', 'server/items.py',
+  "            As = [var_P(Var(nm, T2)) for nm, T2 in zip(constr['args'], argT) if T2 == T]", "            As = [var_P(arg) for arg in args if arg.T == T]")
+B('C12', 'broken items skipped before the limit is looked at', BASIC,
+  "    for item in content:\n        if limit and item.ty == limit[0] and item.name == limit[1]:", "    for item in content:\n        if item.error is not None:\n            continue\n        if limit and item.ty == limit[0] and item.name == limit[1]:", 'C12.L12', 'every-item-compared-with-limit')
+B('C15', 'tautological clauses passed over in propagation', SATF,
+  "            for clause_id, clause in enumerate(cnf):\n                satisfied = False  # whether the current clause is satisfied",
+  "            for clause_id, clause in enumerate(cnf):\n                if any((nm, not vl) in clause for nm, vl in clause):\n                    continue\n                satisfied = False  # whether the current clause is satisfied", 'C15.X3', 'every-clause-examined')
+B('C19', 'singular upper end approached from above', 'integral/poly.py',
+  "                upper = expr.Limit(e.var, expr.POS_INF, e.body.subst(e.var, a - 1 / x))", "                upper = expr.Limit(e.var, expr.POS_INF, e.body.subst(e.var, a + 1 / x))", 'C19.E9', 'approach(')
+B('C07', 'every integer literal rated as an atom', 'syntax/pprint.py',
+  "        if (t.is_number() and isinstance(t.dest_number(), int) and t.dest_number() >= 0) or \\\n           list.is_literal_list(t):", "        if (t.is_number() and isinstance(t.dest_number(), int)) or \\\n           list.is_literal_list(t):", 'C07.W8', 'numeral-atom')
+N('C07', 'sign of the literal tested first', 'syntax/pprint.py',
+  "        if (t.is_number() and isinstance(t.dest_number(), int) and t.dest_number() >= 0) or \\\n           list.is_literal_list(t):", "        if (t.is_number() and not t.dest_number() < 0 and isinstance(t.dest_number(), int)) or \\\n           list.is_literal_list(t):")
+B('C10', 'conj_norm answers early on the sorted list of conjuncts', 'logic/logic.py',
+  "        goal = Eq(t, And(*term_ord.sorted_terms(strip_conj(t))))\n        return imp_conj_iff(goal)", "        ts = strip_conj(t)\n        if term_ord.sorted_terms(ts) == ts:\n            return refl(t)\n        goal = Eq(t, And(*term_ord.sorted_terms(ts)))\n        return imp_conj_iff(goal)", 'C10.V11', 'conj_norm')
+N('C10', 'conj_norm answers early when the term is its own normal form', 'logic/logic.py',
+  "        goal = Eq(t, And(*term_ord.sorted_terms(strip_conj(t))))\n        return imp_conj_iff(goal)", "        nf = And(*term_ord.sorted_terms(strip_conj(t)))\n        if nf == t:\n            return refl(t)\n        goal = Eq(t, nf)\n        return imp_conj_iff(goal)")
+B('C13', 'introduction makes one assume line per distinct antecedent', 'logic/tactic.py',
+  "        ptAs = [ProofTerm.assume(A) for A in As]", "        ptAs = [ProofTerm.assume(A) for A in dict.fromkeys(As)]", 'C13.A13', 'one-assume-per-antecedent')
+B('C16', 'bounds that meet taken for a contradiction', 'prover/omega.py',
+  "        if u < l:\n            if em in (DARK, EDARK):", "        if u <= l:\n            if em in (DARK, EDARK):", 'C16.O9', 'contradiction-by')
